@@ -36,12 +36,13 @@ pub const KINDS: &[&str] = &[
     "template_asm", "wif", "privkey_hex", "privkey_bytes", "pubkey_hex", "pubkey_bytes", "xprv", "xpub", "xprv_path", "xpub_path", "xprv_seed", "address", "pubkey_hash", "sig_der", "sig_der_hex",
     "sig_compact", "sighash_sig", "ecies_with_key", "ecies_no_key", "aes128cbc_key", "aes128cbc_iv", "aes128cbc_ct", "aes256cbc_key", "aes256cbc_ct", "aes128ctr_key", "aes128ctr_iv", "aes256ctr_key",
     "aes256ctr_iv", "aes_ctr_ct", "digest_verify", "digest_sign", "digest_recover", "json_txin", "json_txout", "json_script", "json_pubkey", "json_address", "bsm_sig_compact", "sighash_flag", "pubkey_decompress", "pubkey_hex_compress", "json_hash", "json_kdf", "mnemonic", "template_match",
+    "json_interpreter", "json_state", "json_scriptbit", "json_opcode", "json_sighash", "json_chainparams",
 ];
 
 fn is_text_kind(k: &str) -> bool {
     matches!(
         k,
-        "tx_hex" | "txin_hex" | "txout_hex" | "txin_cbor_hex" | "tx_cbor_hex" | "tx_json" | "script_hex" | "script_asm" | "template_asm" | "wif" | "privkey_hex" | "pubkey_hex" | "xprv" | "xpub" | "xprv_path" | "xpub_path" | "address" | "sig_der_hex" | "json_txin" | "json_txout" | "json_script" | "json_pubkey" | "json_address" | "pubkey_hex_compress" | "json_hash" | "json_kdf" | "template_match"
+        "tx_hex" | "txin_hex" | "txout_hex" | "txin_cbor_hex" | "tx_cbor_hex" | "tx_json" | "script_hex" | "script_asm" | "template_asm" | "wif" | "privkey_hex" | "pubkey_hex" | "xprv" | "xpub" | "xprv_path" | "xpub_path" | "address" | "sig_der_hex" | "json_txin" | "json_txout" | "json_script" | "json_pubkey" | "json_address" | "pubkey_hex_compress" | "json_hash" | "json_kdf" | "template_match" | "json_interpreter" | "json_state" | "json_scriptbit" | "json_opcode" | "json_sighash" | "json_chainparams"
     )
 }
 
@@ -135,6 +136,14 @@ fn consume(kind: &str, input: &[u8]) -> &'static str {
         "sighash_flag" => r(SigHash::try_from(*input.first().unwrap_or(&0))),
         "json_hash" => r(serde_json::from_str::<Hash>(&text())),
         "json_kdf" => r(serde_json::from_str::<KDF>(&text())),
+        // every public type that derives Deserialize is a decoder too (decode only: what a decoded interpreter does when it is
+        // driven is C16's subject and is exercised there through faithful restarts)
+        "json_interpreter" => r(serde_json::from_str::<Interpreter>(&text())),
+        "json_state" => r(serde_json::from_str::<State>(&text())),
+        "json_scriptbit" => r(serde_json::from_str::<ScriptBit>(&text())),
+        "json_opcode" => r(serde_json::from_str::<OpCodes>(&text())),
+        "json_sighash" => r(serde_json::from_str::<SigHash>(&text())),
+        "json_chainparams" => r(serde_json::from_str::<ChainParams>(&text())),
         "mnemonic" => r(ExtendedPrivateKey::from_mnemonic(input, if input.len() % 2 == 0 { None } else { Some(input.iter().rev().cloned().collect()) })),
         "template_match" => r(ScriptTemplate::from_asm_string(&text()).map(|t| {
             // a decoded template is used for matching: against a standard script, an empty one and one of its own length
@@ -610,6 +619,38 @@ impl ArtefactMedium {
                 let k = KDF::pbkdf2(b"pw", Some(rng.bytes(8)), PBKDF2Hashes::SHA256, 1, 16);
                 (serde_json::to_string(&k).unwrap_or_default().into_bytes(), vec![])
             }
+            "json_interpreter" | "json_state" => {
+                // an interpreter a few steps into a small program, with or without a transaction context
+                let asm = *rng.pick(&["OP_1 OP_2 OP_ADD OP_3 OP_EQUAL", "OP_1 OP_IF OP_2 OP_ELSE OP_3 OP_ENDIF OP_TOALTSTACK", "00ff OP_DUP OP_HASH160 OP_SWAP OP_CODESEPARATOR OP_DROP", "OP_0 OP_NOTIF aabbcc OP_ENDIF OP_SIZE"]);
+                let script = Script::from_asm_string(asm).unwrap_or_default();
+                let mut itp = if rng.chance(1, 2) {
+                    let mut tx = Transaction::new(1, 0);
+                    let mut txin = TxIn::new(&[7u8; 32], 1, &Script::default(), Some(5));
+                    txin.set_locking_script(&script);
+                    txin.set_satoshis(1000);
+                    tx.add_input(&txin);
+                    tx.add_output(&TxOut::new(5, &script));
+                    Interpreter::from_transaction(&tx, 0).unwrap_or_else(|_| Interpreter::from_script(&script))
+                } else {
+                    Interpreter::from_script(&script)
+                };
+                for _ in 0..rng.below(6) {
+                    let _ = itp.next();
+                }
+                if kind == "json_state" {
+                    (serde_json::to_string(&itp.state()).unwrap_or_default().into_bytes(), vec![])
+                } else {
+                    (serde_json::to_string(&itp).unwrap_or_default().into_bytes(), vec![])
+                }
+            }
+            "json_scriptbit" => {
+                let bits = Script::from_asm_string("OP_1 OP_IF aabb OP_ELSE OP_2 OP_ENDIF OP_CHECKSIG").map(|s| s.to_script_bits()).unwrap_or_default();
+                let b = if bits.is_empty() { ScriptBit::OpCode(OpCodes::OP_1) } else { bits[rng.usize(bits.len())].clone() };
+                (serde_json::to_string(&b).unwrap_or_default().into_bytes(), vec![])
+            }
+            "json_opcode" => (serde_json::to_string(&*rng.pick(&[OpCodes::OP_0, OpCodes::OP_1, OpCodes::OP_CHECKSIG, OpCodes::OP_PUSHDATA4, OpCodes::OP_IF])).unwrap_or_default().into_bytes(), vec![]),
+            "json_sighash" => (serde_json::to_string(&SigHash::try_from(*rng.pick(&crate::scen_txhist::FLAGS)).unwrap_or(SigHash::ALL)).unwrap_or_default().into_bytes(), vec![]),
+            "json_chainparams" => (serde_json::to_string(&ChainParams::default()).unwrap_or_default().into_bytes(), vec![]),
             "mnemonic" => {
                 let n = *rng.pick(&[0usize, 1, 12, 64, 128, 129, 300]);
                 (rng.bytes(n), vec![])
